@@ -23,10 +23,10 @@ EXPLANATION = (
     "failure_cases=exc.failure_cases); (R4) no coerce/try_coerce implementation writes through its data_container "
     "argument; (R5) values whose declared return type is pl.LazyFrame are not combined with & | ~ (LazyFrame defines "
     "none); (R6) wherever a coerce method compares null-ness after the conversion with null-ness of its input, the two "
-    "masks are combined element-wise (isna(result) & notna(input)) before any aggregation. NOT decided: everything value-level - exactness, idempotence, agreement of coerce/coerce_value/check."
+    "masks are combined element-wise (isna(result) & notna(input)) before any aggregation; (R7) a coerce method returns its input unchanged only under a guard that compares with the target type. NOT decided: everything value-level - exactness, idempotence, agreement of coerce/coerce_value/check."
 )
 LEVEL_RULE = "one obligation per try_coerce implementation / helper / schema-level site / coerce method / operator"
-FLOORS = {"R1": 4, "R2": 4, "R3": 4, "R4": 20, "R5": 1, "R6": 2}
+FLOORS = {"R1": 4, "R2": 4, "R3": 4, "R4": 20, "R5": 1, "R6": 2, "R7": 2}
 
 HELPERS = {"numpy_pandas_coerce_failure_cases", "polars_coerce_failure_cases", "polars_failure_cases_from_coercible"}
 ENGINE_MODS = ["pandera/engines/numpy_engine.py", "pandera/engines/pandas_engine.py", "pandera/engines/polars_engine.py",
@@ -307,6 +307,53 @@ def r6_new_nulls(ctx):
     ctx.stats["new_null_detectors"] = n
 
 
+def r7_identity_shortcut(ctx):
+    """coerce may hand its input back unchanged only when the input already has exactly the target type: the guard of an
+    identity return has to compare with the target (self.type / self.check / the target's parameters), not merely test
+    that the input is of the same family."""
+    from ..cfg import cfg_of
+    from ..util import path_condition, show_condition
+    ix = ctx.ix
+    n = 0
+    for mp in ENGINE_MODS:
+        m = ix.by_path.get(mp)
+        if m is None:
+            continue
+        for f in m.all_functions:
+            if f.name not in ("coerce", "_coerce") or f.cls is None or len(f.positional) < 2:
+                continue
+            data = f.positional[1]
+            ex = Expander(f.node)
+            cfg = None
+            for s in function_stmts(f):
+                if not isinstance(s, ast.Return) or s.value is None:
+                    continue
+                v = ex.expand(s.value)
+                same = (isinstance(v, ast.Name) and v.id == data) or \
+                       (isinstance(v, ast.Attribute) and isinstance(v.value, ast.Name) and v.value.id == data and v.attr in ("lazyframe", "dataframe"))
+                if not same:
+                    continue
+                # a re-bound parameter (data = data.astype(...)) is not the input any more
+                rebinds = [a for a in function_stmts(f) if isinstance(a, ast.Assign) and any(isinstance(t, ast.Name) and t.id == data for t in a.targets)
+                           and any(isinstance(c, ast.Call) and callee_last(c) in ("astype", "cast", "with_columns", "map", "apply", "coerce", "_coerce", "convert_dtypes")
+                                   for c in ast.walk(a.value))]
+                cfg = cfg or cfg_of(f.node)
+                rd = cfg.reaching_defs()
+                node = cfg.node_of(s)
+                if any(cfg.node_of(a).id in rd[node.id].get(data, set()) for a in rebinds):
+                    continue
+                n += 1
+                pc = path_condition(cfg, node.id, expand=ex)
+                target = [a for a in pc[0] if "self." in a or "self)" in a]
+                ok = bool(target) or not pc[0] and not any(isinstance(c, ast.Call) for c in ast.walk(f.node) if isinstance(c, ast.Call) and callee_last(c) in ("astype", "cast"))
+                ctx.ob("R7", f, f"{f.cls.name}.{f.name}: unchanged input is returned only when it already has the target type", ok,
+                       f"identity under {show_condition(pc)[:120]}" if ok else
+                       f"`return {txt(s.value)}` hands the input back under {show_condition(pc)[:160]}, a condition that never looks at the target "
+                       "type: data of the same family but another parameterisation (precision/scale, unit, categories) is returned un-coerced, so the "
+                       "result fails the type's own check and unrepresentable values go unreported", f.loc(s))
+    ctx.stats["identity_returns"] = n
+
+
 def run(ctx):
     r1_try_coerce(ctx)
     r2_helpers(ctx)
@@ -314,4 +361,5 @@ def run(ctx):
     r4_no_write(ctx)
     r5_operator_lint(ctx)
     r6_new_nulls(ctx)
+    r7_identity_shortcut(ctx)
     ctx.assume("astype/cast of pandas/polars return new objects")
